@@ -1103,3 +1103,84 @@ def r_no_dangling_after_free(ck, P, rid):
                 ck.violation(R, f.name, 'dangling field after %s' % what, '%s can return (%s) after %s without storing a new value there: on that path - an allocation failure in between - the object keeps a pointer to freed memory, which is used again and freed a second time later' % (f.name, esc.loc(), what), c.loc())
     if n == 0:
         ck.incomplete(R, 'no free of a field of a parameter object found outside destructors')
+
+
+def r_hook_refreshes_unconditionally(ck, P, rid):
+    """T-MPT: a property_changed hook recomputes the state derived from the image's properties whenever it is called.  A return that
+    skips every write of the hook because a field the hook itself installs is already set makes the derived state survive a later
+    change of the properties it was derived from (accessors set after first use, format-dependent tables ...)."""
+    R = ck.rule(rid, 'no property_changed hook returns without recomputing on the ground that a field it installs itself is already set: on every branch whose condition reads a field written by the hook (or by what it calls), both sides reach a write of the hook', floor=2)
+    hooks = sorted(common.property_changed_functions(P), key=lambda g: g.name)
+    if not hooks:
+        raise AnalysisBroken('no function is stored into image_common.property_changed')
+
+    def fields_of_path(f, o):
+        out = []
+        def walk(t):
+            if isinstance(t, str):
+                if '.' in t:
+                    out.append(t)
+            elif isinstance(t, tuple):
+                for q in t:
+                    walk(q)
+        walk(f.path(o))
+        return out
+
+    for g in hooks:
+        ck.saw(g)
+        # fields written by the hook and by the callees that receive the image
+        W = set(); seen = set(); work = [g]
+        while work:
+            h = work.pop()
+            if h in seen:
+                continue
+            seen.add(h)
+            for x in h.insts():
+                if x.op == 'store' and any(r[0] == 'arg' for r in common.roots(h, x.a[1])):
+                    fs = fields_of_path(h, x.a[1])
+                    if fs:
+                        W.add(fs[-1])
+                elif x.op == 'call' and x.callee:
+                    k = P.resolve(h, x.callee)
+                    if k is not None and any(any(r[0] == 'arg' for r in common.roots(h, a)) for a in x.a if a and a[0] in ('v', 'a')):
+                        work.append(k)
+        wblocks = {x.bb.id for x in g.insts() if (x.op == 'store' and any(r[0] == 'arg' for r in common.roots(g, x.a[1]))) or (x.op == 'call' and x.callee and not x.callee.startswith('llvm.dbg'))}
+        rets = {x.bb.id for x in g.rets()}
+        bad = None; nbr = 0
+        for b in g.blocks:
+            t = b.term
+            if t.op != 'br' or not t.a:
+                continue
+            # fields the condition reads
+            rd = set(); work = [t.a[0]]; vs = set()
+            while work:
+                o = work.pop()
+                if o[0] != 'v' or o[1] in vs:
+                    continue
+                vs.add(o[1])
+                x = g.by_id[o[1]]
+                if x.op == 'load':
+                    fs = fields_of_path(g, x.a[0])
+                    if fs:
+                        rd.add(fs[-1])
+                    continue
+                if x.op == 'call':
+                    continue
+                work.extend(a for a in x.a if a)
+            own = rd & W
+            if not own:
+                continue
+            nbr += 1
+            for s in t.d['succ']:
+                if s in wblocks:
+                    continue
+                reach = g.reachable_blocks(s, avoid=wblocks)
+                if (s in rets or reach & rets):
+                    bad = (t, sorted(own)); break
+            if bad:
+                break
+        if bad:
+            t, own = bad
+            ck.violation(R, g.name, 'early return on %s' % own[0], '%s returns without recomputing anything when %s — a field the hook itself installs — has a certain value: state derived from the image\'s properties (here what %s computes) then survives a later change of those properties' % (g.name, own[0], ', '.join(sorted({c.callee for c in g.calls() if c.callee and not c.callee.startswith('llvm.')})[:3]) or 'the hook'), t.loc())
+        else:
+            ck.ok(R, '%s: %d derived fields, %d branches on them, none skips the recomputation' % (g.name, len(W), nbr))
